@@ -100,7 +100,10 @@ def reborrow_of(body, local, param):
     return True
 
 
-def chase(body, place, depth=0):
+IRRELEVANT = "irrelevant"  # chase: the place can only hold other variants than the one asked for
+
+
+def chase(body, place, depth=0, facts=None):
     """Parameter a place is a (re)borrow / copy / tuple field / enum payload of, following definitions
     field-sensitively through tuple and enum aggregates; None if it is anything else (or ambiguous)."""
     if depth > 14:
@@ -116,16 +119,42 @@ def chase(body, place, depth=0):
                 defs.append(st["rv"])
         t = b["term"]
         if t["k"] == "call" and t["dest"]["l"] == l:
+            r = (t["f"]["resolved"] or t["f"]["declared"]) if t["f"]["k"] == "item" else None
+            if r is None or not t["args"]:
+                return None
+            # `?`: the Continue payload of Try::branch(x) is the Ok / Some payload of x
+            if r["def"].endswith("::Try>::branch") and len(proj) >= 2 and isinstance(proj[0], dict) and proj[0].get("dc") == "Continue":
+                q = t["args"][0].get("c") or t["args"][0].get("m")
+                if q is None:
+                    return None
+                okv = "Some" if "option::Option" in r["def"] else "Ok"
+                return chase(body, {"l": q["l"], "p": list(q["p"]) + [{"dc": okv}] + proj[1:]}, depth + 1, facts)
+            # a crate function: what it returns (every `_0 = ..` must agree), mapped back to this call's arguments
+            if facts is not None and r.get("local") and "inst" in r:
+                callee = facts.instances[r["inst"]]
+                if callee.get("body") is None or callee.get("closure"):
+                    return None
+                k = chase(callee["body"], {"l": 0, "p": proj}, depth + 1, facts)
+                if k == IRRELEVANT:
+                    return IRRELEVANT
+                if k is None or k - 1 >= len(t["args"]):
+                    return None
+                q = t["args"][k - 1].get("c") or t["args"][k - 1].get("m")
+                return chase(body, q, depth + 1, facts) if q is not None else None
             return None
     if not defs:
         return None
-    if proj and isinstance(proj[0], dict) and "dc" in proj[0]:
-        # payload of an enum variant: every construction of that variant must agree
+    plain = len(defs) == 1 and (defs[0]["k"] == "ref" or (defs[0]["k"] == "use" and ("c" in defs[0]["op"] or "m" in defs[0]["op"])))
+    if not plain and proj and isinstance(proj[0], dict) and "dc" in proj[0]:
+        # payload of an enum variant: every construction of *that* variant must agree; constructions of other
+        # variants (and unit-variant constants) are not what the downcast looks at
         want = proj[0]["dc"]
         aggs = [rv for rv in defs if rv["k"] == "aggregate" and rv.get("variant") == want]
-        others = [rv for rv in defs if not (rv["k"] == "aggregate" and rv.get("variant"))]
-        if not aggs or others or len(proj) < 2 or not (isinstance(proj[1], dict) and "f" in proj[1]):
+        others = [rv for rv in defs if not (rv["k"] == "aggregate" and rv.get("variant")) and not (rv["k"] == "use" and "k" in rv["op"])]
+        if others or len(proj) < 2 or not (isinstance(proj[1], dict) and "f" in proj[1]):
             return None
+        if not aggs:
+            return IRRELEVANT
         res = set()
         for rv in aggs:
             if proj[1]["f"] >= len(rv["ops"]):
@@ -133,8 +162,12 @@ def chase(body, place, depth=0):
             q = rv["ops"][proj[1]["f"]]
             q = q.get("c") or q.get("m")
             if q is None:
-                return None
-            res.add(chase(body, {"l": q["l"], "p": list(q["p"]) + proj[2:]}, depth + 1))
+                res.add(IRRELEVANT if proj[2:] else None)
+                continue
+            res.add(chase(body, {"l": q["l"], "p": list(q["p"]) + proj[2:]}, depth + 1, facts))
+        res.discard(IRRELEVANT)
+        if not res:
+            return IRRELEVANT
         return res.pop() if len(res) == 1 else None
     if len(defs) != 1:
         return None
@@ -143,17 +176,100 @@ def chase(body, place, depth=0):
         q = rv["op"].get("c") or rv["op"].get("m")
         if q is None:
             return None
-        return chase(body, {"l": q["l"], "p": list(q["p"]) + proj}, depth + 1)
+        return chase(body, {"l": q["l"], "p": list(q["p"]) + proj}, depth + 1, facts)
     if rv["k"] == "ref":
         q = rv["place"]
-        return chase(body, {"l": q["l"], "p": list(q["p"]) + proj}, depth + 1)
+        return chase(body, {"l": q["l"], "p": list(q["p"]) + proj}, depth + 1, facts)
     if rv["k"] == "aggregate" and not rv.get("variant") and proj and isinstance(proj[0], dict) and "f" in proj[0] and proj[0]["f"] < len(rv["ops"]):
         q = rv["ops"][proj[0]["f"]]
         q = q.get("c") or q.get("m")
         if q is None:
             return None
-        return chase(body, {"l": q["l"], "p": list(q["p"]) + proj[1:]}, depth + 1)
+        return chase(body, {"l": q["l"], "p": list(q["p"]) + proj[1:]}, depth + 1, facts)
     return None
+
+
+def producer_call(f, body, local, depth=0):
+    """The call to a crate function whose (Ok / Some payload of the) result the local holds, through plain copies
+    and `?`; returns (callee instance, call terminator) or None."""
+    if depth > 8:
+        return None
+    defs = []
+    for b in body["blocks"]:
+        for st in b["stmts"]:
+            if st["k"] == "assign" and st["place"]["l"] == local and not st["place"]["p"]:
+                defs.append(st["rv"])
+        t = b["term"]
+        if t["k"] == "call" and t["dest"]["l"] == local:
+            r = (t["f"]["resolved"] or t["f"]["declared"]) if t["f"]["k"] == "item" else None
+            if r is None:
+                return None
+            if r["def"].endswith("::Try>::branch") and t["args"]:
+                q = t["args"][0].get("c") or t["args"][0].get("m")
+                return producer_call(f, body, q["l"], depth + 1) if q is not None and not q["p"] else None
+            if r.get("local") and "inst" in r and f.instances[r["inst"]].get("body") is not None:
+                return f.instances[r["inst"]], t
+            return None
+    if len(defs) != 1 or defs[0]["k"] != "use":
+        return None
+    q = defs[0]["op"].get("c") or defs[0]["op"].get("m")
+    if q is None:
+        return None
+    return producer_call(f, body, q["l"], depth + 1)
+
+
+def proxy_guard_via_classifier(f, o, root, site_bi, literal, sparam):
+    """Guard by proxy where the classification happens in a crate function: the site sits in the arm for variant V
+    of a value returned by classifier(value); inside the classifier every construction of V lies under the
+    comparison of its parameter with the literal."""
+    cfg = CFG(root)
+    body = root["body"]
+    for i, b in enumerate(cfg.blocks):
+        dl, src = None, None
+        for st in b["stmts"]:
+            if st["k"] == "assign" and st["rv"]["k"] == "discr" and not st["rv"]["place"]["p"]:
+                dl, src = st["place"]["l"], st["rv"]["place"]["l"]
+        t = b["term"]
+        if dl is None or t["k"] != "switch":
+            continue
+        pl = t["op"].get("m") or t["op"].get("c")
+        if pl is None or pl["l"] != dl:
+            continue
+        for val, tgt in t["cases"]:
+            if not cfg.dominated_by(site_bi, tgt) or tgt == t["otherwise"]:
+                continue
+            pc = producer_call(f, body, src)
+            if pc is None:
+                continue
+            F, call = pc
+            ty = f.ty(body["locals"][src]["ty"])
+            adt_path = ty.get("path") if ty["k"] == "adt" else None
+            sF = o.summary(F)
+            cF = CFG(F)
+            for e in sF.events:
+                if not (e[0] == "USE" and e[1].endswith("::eq") and len(e[3]) == 2):
+                    continue
+                sides = [frozenset(e[3][0]), frozenset(e[3][1])]
+                if frozenset({("const", literal)}) not in sides:
+                    continue
+                other = [x for x in sides if x != frozenset({("const", literal)})]
+                if len(other) != 1 or len(other[0]) != 1:
+                    continue
+                (tok,) = other[0]
+                if tok[0] != "param" or tok[1] - 1 >= len(call["args"]):
+                    continue
+                q = call["args"][tok[1] - 1].get("c") or call["args"][tok[1] - 1].get("m")
+                if q is None or chase(body, q, 0, f) != sparam:
+                    continue
+                tt = nonzero_target(cF, e[4])
+                cons = []
+                for j, bb in enumerate(cF.blocks):
+                    for st in bb["stmts"]:
+                        if st["k"] == "assign" and st["rv"]["k"] == "aggregate" and st["rv"].get("path") == adt_path and st["rv"].get("vi") == val:
+                            cons.append(j)
+                if cons and tt and all(all(cF.dominated_by(j, g) for g in tt) for j in cons):
+                    return True
+    return False
 
 
 def proxy_guard(cfg, body, site_bi, guard_targets):
@@ -336,7 +452,7 @@ def resolution_rules(f, root, is_sink, sparam=2, literal="localtime", literal_pa
         body_ = inst["body"]
         for a_ in term["args"]:
             pl = a_.get("m") or a_.get("c")
-            if pl is not None and not pl["p"] and (reborrow_of(body_, pl["l"], sparam) or chase(body_, pl) == sparam):
+            if pl is not None and not pl["p"] and (reborrow_of(body_, pl["l"], sparam) or chase(body_, pl, 0, f) == sparam):
                 return True
         return False
 
@@ -404,6 +520,8 @@ def resolution_rules(f, root, is_sink, sparam=2, literal="localtime", literal_pa
     nested_lit = [x for x in reads if x[3] and ("const", literal_path) in x[3][0]]
     if not nested_lit:
         out.append(("LITERAL", "no-literal-read", "no READ of \"%s\" is reachable from the entry point" % literal_path, root.get("span")))
+    elif len(tests) == 0 and lit_sites and all(proxy_guard_via_classifier(f, o, root, s_["bi"], literal, sparam) for s_ in lit_sites) and all(p_ == {("const", literal_path)} for s_ in lit_sites for p_ in s_["paths"]):
+        pass  # the test lives in a classification function whose result is matched here
     elif len(tests) != 1 or not lit_sites:
         out.append(("LITERAL", "no-literal-test", "the comparison of the TZ value with \"%s\" guarding the read of \"%s\" was not found in the entry point (%d candidates)" % (literal, literal_path, len(tests)), root.get("span")))
     else:
